@@ -245,6 +245,7 @@ def check_append(case):
             r['name'] = 'res_%d' % (len(spec) + 1 + i)
     names = st.names()
     new_rows = [{'n': 1, 'm': 'x'}, {'n': 2, 'm': None}]
+    cleanup = []
     label = 'appending via %s after package %r%s' % (how, spec, ' named %r' % names if case.get('shifted') else '')
     if how == 'iterable':
         step = [copy.deepcopy(r) for r in new_rows]
@@ -262,6 +263,15 @@ def check_append(case):
         idx = int(how[-1])
         step = core.dataflows.load((copy.deepcopy(ns.desc), [iter(copy.deepcopy(r)) for r in ns.rows]), resources=idx)
         newnames = [['L1', 'L2'][idx]]
+    elif how == 'load-dp':
+        # a data package on disk with three resources, each with rows of its own
+        import tempfile
+        ns = mkstate([('L1', [('n', 'integer'), ('m', 'string')], new_rows), ('L2', [('n', 'integer')], [{'n': 5}]), ('L3', [('n', 'integer')], [{'n': 7}, {'n': 8}])])
+        dpdir = tempfile.mkdtemp(dir=core.scratch_root(), prefix='c16dp')
+        cleanup.append(dpdir)
+        core.Flow(core.from_state(ns), core.dataflows.dump_to_path(dpdir)).process()
+        step = core.dataflows.load(dpdir + '/datapackage.json')
+        newnames = ['L1', 'L2', 'L3']
     elif how == 'load-live':
         # the (descriptor, resources) pair is another flow's live stream: its resources must be taken one at a time, in order
         # (that flow ends in a concatenate, whose sources are only taken from the stream while its target is being read)
@@ -275,6 +285,9 @@ def check_append(case):
         step = core.dataflows.sources([copy.deepcopy(r) for r in new_rows], [{'q': 1}])
         newnames = None
     kind, out = run_step(st, step)
+    for c_ in cleanup:
+        import shutil
+        shutil.rmtree(c_, ignore_errors=True)
     if kind == 'exc':
         return [('raises/append-%s' % how, '%s raises %s: %s' % (label, core.exc_sig(out), str(out)[:100]))], 'violated', True
     got = out.names()
@@ -290,7 +303,7 @@ def check_append(case):
                 v.append(('existing-changed/append-%s' % how, '%s: existing resource %r changed' % (label, names[i])))
                 break
         exp_new = {'iterable': [new_rows], 'generator': [new_rows], 'load': [new_rows, []], 'sources': [new_rows, [{'q': 1}]],
-                   'load-live': [new_rows, [{'n': 5}, {'n': 6}]], 'load-int0': [new_rows], 'load-int1': [[{'n': 5}]]}[how]
+                   'load-live': [new_rows, [{'n': 5}, {'n': 6}]], 'load-dp': [new_rows, [{'n': 5}], [{'n': 7}, {'n': 8}]], 'load-int0': [new_rows], 'load-int1': [[{'n': 5}]]}[how]
         if len(got) - k != len(exp_new):
             v.append(('appended-count/append-%s' % how, '%s: %d resources appended, expected %d' % (label, len(got) - k, len(exp_new))))
         elif [enc_rows(r) for r in out.rows[k:]] != [enc_rows(r) for r in exp_new]:
@@ -305,11 +318,12 @@ def big_cases():
     for bs in (1, 2, 1000):
         for to_end in (False, True):
             out.append({'to_end': to_end, 'batch': bs})
+    out.append({'to_end': False, 'batch': 1000, 'n': 65600})       # more rows than four hexadecimal digits can number
     return out
 
 
 def big_case(c):
-    n = 2500
+    n = c.get('n', 2500)
     rows = [{'a': i, 'b': 's%d' % i} for i in range(n)]
     st = mkstate([('r0', SCHEMAS['ab'], rows), ('r1', SCHEMAS['d'], [{'d': 'x'}])])
     kind, out = run_step(st, core.dataflows.duplicate('r0', duplicate_to_end=c['to_end'], batch_size=c['batch']))
@@ -318,8 +332,8 @@ def big_case(c):
         ci = out.names().index('r0_copy')
         ok = enc_rows(out.rows[ci]) == enc_rows(rows) and enc_rows(out.rows[0]) == enc_rows(rows)
     return {'n': 1, 'key': core.h(['big', c]), 'outcome': 'big-ok' if ok else 'big-violated',
-            'viol': [] if ok else [('large/duplicate', 'duplicate of a 2500-row resource (batch_size=%d, to_end=%s): copy or original '
-                                    'differs' % (c['batch'], c['to_end']), {'big': c})]}
+            'viol': [] if ok else [('large/duplicate', 'duplicate of a %d-row resource (batch_size=%d, to_end=%s): copy or original '
+                                    'differs' % (n, c['batch'], c['to_end']), {'big': c})]}
 
 
 def cases(tier):
@@ -360,7 +374,7 @@ def cases(tier):
             for sel in sels:
                 out.append({'proc': 'delete', 'pkg': spec, 'sel': sel})
             if n <= 2 or tier == 'thorough':
-                for how in ('iterable', 'generator', 'load', 'sources', 'load-live', 'load-int0', 'load-int1'):
+                for how in ('iterable', 'generator', 'load', 'sources', 'load-live', 'load-int0', 'load-int1', 'load-dp'):
                     out.append({'proc': 'append', 'pkg': spec, 'how': how})
                 for how in ('iterable', 'generator'):
                     out.append({'proc': 'append', 'pkg': spec, 'how': how, 'shifted': True})
